@@ -112,6 +112,10 @@ pub fn gen_case(rng: &mut Rng, idx: usize, thorough: bool) -> Value {
     let c = corpus();
     let n = if thorough { 40 } else { 16 };
     if idx < c.len() { return json!({"schema": c[idx], "seed": rng.next() % 1_000_000_000, "instances": n}); }
+    if idx % 10 == 9 {
+        // the intersection tie of M7 (shared with C06): an intersection that drops instances refuses valid ones
+        return json!({"kind": "isect", "seed": rng.next() % 1_000_000_000, "pairs": if thorough { 80 } else { 24 }});
+    }
     json!({"schema": gen_root(rng), "seed": rng.next() % 1_000_000_000, "instances": n})
 }
 
@@ -128,6 +132,7 @@ pub fn feed(w: &World, g: &Gram, toks: &[u32]) -> Result<(), String> {
 }
 
 pub fn run_case(ctx: &Ctx, case: &Value, tag: usize, rep: &mut Report, mb: &mut ModelBatch) {
+    if case["kind"] == "isect" { crate::c06::run_isect(case, tag, rep, mb); return; }
     let schema = &case["schema"];
     let mut rng = Rng::new(case["seed"].as_u64().unwrap_or(1));
     let g = Gram::Json(schema.clone());
